@@ -2,6 +2,7 @@ package siggen
 
 import (
 	"fmt"
+	"strings"
 
 	"github.com/ontio/ontology-crypto/keypair"
 	"github.com/ontio/ontology/common"
@@ -236,6 +237,17 @@ func finish(r *hx.Rand, p *TxPlan, payerMode int) {
 
 // Gen produces one op line.
 func Gen(r *hx.Rand, tier string, i int) string {
+	return withPre(r, gen16(r, tier, i))
+}
+
+// withPre appends the object-state dimension: what happens to the decoded transaction object before validation.
+func withPre(r *hx.Rand, line string) string {
+	f := strings.Fields(line)
+	raw, _ := hx.Unhex(f[1])
+	return line + " P=" + GenPre(r, raw)
+}
+
+func gen16(r *hx.Rand, tier string, i int) string {
 	x := r.Intn(100)
 	switch {
 	case x < 14:
@@ -720,11 +732,51 @@ func Corpus() []string {
 		p.Sets[0].Verify = append(o, opCHECKMULTISIG)
 		out = append(out, Line(p.Assemble(), "", "corpus:m-wrapped"))
 	}
+	// object state: the getter (which verifies nothing) or an assignment filled SignedAddr before validation
+	{
+		for _, pre := range []string{"g", "g.v", "v.v", "PAYER"} {
+			// forged: the signature is made by a key that is not in the script
+			p := one("p256")
+			finish(r, p, 0)
+			other := pickKey(r, "ed")
+			p.Sets[0].SigList[0] = Sign(other, Sha256d(p.Unsigned()))
+			ps := pre
+			if pre == "PAYER" {
+				ps = fmt.Sprintf("s%x", p.Payer[:])
+			}
+			out = append(out, Line(p.Assemble(), "", "corpus:state-forged-sig")+" P="+ps)
+			// payer is not a signer
+			p = one("p256")
+			finish(r, p, 1)
+			if pre == "PAYER" {
+				ps = fmt.Sprintf("s%x", p.Payer[:])
+			}
+			out = append(out, Line(p.Assemble(), "", "corpus:state-payer-not-signer")+" P="+ps)
+			// signed content mutated after signing (claim: single-byte mutant of an accepted transaction)
+			p = one("p256")
+			finish(r, p, 0)
+			base := p.Assemble()
+			mut := append([]byte{}, base...)
+			mut[3] ^= 0x01 // nonce
+			if pre == "PAYER" {
+				ps = fmt.Sprintf("s%x", p.Payer[:])
+			}
+			out = append(out, Line(mut, fmt.Sprintf("b:3:%02x", base[3]), "corpus:state-mutated-content")+" P="+ps)
+			// valid transaction: same verdict and same signer list whatever happened before
+			p = one("eth")
+			finish(r, p, 0)
+			out = append(out, Line(p.Assemble(), "", "corpus:state-valid")+" P="+ps)
+		}
+	}
 	return out
 }
 
 // Gen17 is the C17 mix: mostly accepted transactions, raw-script variants dominate.
 func Gen17(r *hx.Rand, tier string, i int) string {
+	return withPre(r, gen17(r, tier, i))
+}
+
+func gen17(r *hx.Rand, tier string, i int) string {
 	x := r.Intn(100)
 	switch {
 	case x < 25:
